@@ -1,4 +1,5 @@
 import Plotink.Proofs.C16Spec
+import Plotink.Proofs.C16GenBridge
 /-! # C16 — board-state round trips through the EBB3 layer are faithful
 
 `World` = the `EBB3` object's relevant fields + the board (`Model/C16.lean`); the methods are the statement-by-statement
@@ -175,5 +176,273 @@ example :=
     intro op hop
     simp only [List.mem_cons, List.not_mem_nil, or_false] at hop
     rcases hop with rfl | rfl | rfl <;> trivial)
+
+
+
+section Regenerated
+open PyObj Gen
+
+/-! ## The same properties about the REGENERATED methods
+
+`Gen.EBB3_var_write_int32`, `Gen.EBB3_var_read_int32`, `Gen.EBB3_var_write`, `Gen.EBB3_var_read`,
+`Gen.EBB3_write_nickname`, `Gen.EBB3_query_nickname`, `Gen.EBBMotionWrap_motors_enable`,
+`Gen.EBBMotionWrap_motors_query_enabled` are regenerated from `plotink/ebb3_serial.py` / `ebb3_motion.py` on every run
+(`translator/pyio2lean.py`, runtime `PyObj.lean`). They talk to a port SCRIPT; the script-producing device is defined
+from the trusted board: `boardReads b reqs` = the reply lines of `boardRecv` to the request lines `reqs` in order,
+`boardAfter b reqs` = the board after them (`Proofs/C16GenBridge.lean`). Every theorem below says: on the script the board
+produces for `reqs`, the regenerated method writes exactly `reqs` (each with its CR — so the script *is* the board's
+answer to what the code wrote), consumes exactly those replies (`tl` is left), returns the required value and leaves the
+object as required; the board-state claims are about `boardAfter b reqs`. `ReadyObj obj` = `port` is a port object and
+`err is None`; all writes succeed (`writes = []`). Fuel ≥ 1 suffices (no retry is needed on a conforming link). -/
+
+/-- **int32 round trip, regenerated code.** -/
+theorem C16_gen_int32 (b : Board) (hwf : b.WF) (obj : EBB3_Obj) (hobj : ReadyObj obj) (v i : Int) (hv : IsInt32 v)
+    (hi : 0 ≤ i ∧ i ≤ 28) :
+    ∃ reqsW reqsR,
+      (∀ (fuel : Nat) (ext : Ext) (tl : List PyIO.Rd) (log : List (List Char)) (n : Nat),
+        EBB3_var_write_int32 (fuel + 1) (.int v) (.int i) ⟨obj, ⟨boardReads b reqsW ++ tl, [], log, n⟩, ext⟩ =
+          .val (.bool true) ⟨obj, ⟨tl, [], log ++ reqsW.map (· ++ ['\r']), n + reqsW.length⟩, ext⟩) ∧
+      (∀ k, k < 4 → (boardAfter b reqsW).vars[i.toNat + k]? = some (Spec.beByte v k) ∧ Spec.beByte v k ≤ 255) ∧
+      (∀ j, (j < i.toNat ∨ i.toNat + 4 ≤ j) → (boardAfter b reqsW).vars[j]? = b.vars[j]?) ∧
+      (boardAfter b reqsW).name = b.name ∧ (boardAfter b reqsW).m1 = b.m1 ∧ (boardAfter b reqsW).m2 = b.m2 ∧
+      (boardAfter b reqsW).mode = b.mode ∧
+      (∀ (fuel : Nat) (ext : Ext) (tl : List PyIO.Rd) (log : List (List Char)) (n : Nat),
+        EBB3_var_read_int32 (fuel + 1) (.int i) ⟨obj, ⟨boardReads (boardAfter b reqsW) reqsR ++ tl, [], log, n⟩, ext⟩ =
+          .val (.int v) ⟨obj, ⟨tl, [], log ++ reqsR.map (· ++ ['\r']), n + reqsR.length⟩, ext⟩) ∧
+      boardAfter (boardAfter b reqsW) reqsR = boardAfter b reqsW := by
+  obtain ⟨k, rfl⟩ := Int.eq_ofNat_of_zero_le hi.1
+  have hk : k ≤ 28 := by omega
+  have hr : Ready (readyWorld b none) := ⟨rfl, rfl⟩
+  -- the write
+  obtain ⟨reqsW, vW, pyW, hmW, _, hgW⟩ :=
+    gen_op_bridge (readyWorld b none) hr hwf (.writeInt32 v k) ⟨hv, hi⟩ trivial obj hobj
+  have htr := var_write_int32_trace (w := readyWorld b none) rfl rfl hwf.len hv hk
+  have e1 := hmW
+  simp only [runOp] at e1
+  rw [htr] at e1
+  injection e1 with e1
+  injection e1 with ev ew
+  injection ew with _ eb _
+  subst ev
+  have hb1 : boardAfter b reqsW = { b with vars := Spec.setBytes b.vars k v } := eb.symm
+  have hwf1 : ({ b with vars := Spec.setBytes b.vars k v } : Board).WF :=
+    wf_vars hwf _ (setBytes_length _ _ _) (fun x hx => mem_setBytes hx)
+  have hlen : k + 3 < b.vars.length := by rw [hwf.len]; omega
+  have hbytes : ∀ j, j < 4 → (Spec.setBytes b.vars k v)[k + j]? = some (Spec.beByte v j) :=
+    fun j hj => setBytes_in v hlen hj
+  -- the read
+  have hr1 : Ready (readyWorld { b with vars := Spec.setBytes b.vars k v } none) := ⟨rfl, rfl⟩
+  obtain ⟨reqsR, vR, pyR, hmR, _, hgR⟩ :=
+    gen_op_bridge (readyWorld { b with vars := Spec.setBytes b.vars k v } none) hr1 hwf1 (.readInt32 k) hi trivial obj hobj
+  have htr2 := var_read_int32_trace (w := readyWorld { b with vars := Spec.setBytes b.vars k v } none) rfl rfl hk
+    (hbytes 0 (by omega)) (hbytes 1 (by omega)) (hbytes 2 (by omega)) (hbytes 3 (by omega))
+    (beByte_le _ _) (beByte_le _ _) (beByte_le _ _) (beByte_le _ _)
+  rw [decode_beByte hv] at htr2
+  have e2 := hmR
+  simp only [runOp] at e2
+  rw [htr2] at e2
+  injection e2 with e2
+  injection e2 with ev2 ew2
+  injection ew2 with _ eb2 _
+  subst ev2
+  refine ⟨reqsW, reqsR, ?_, ?_, ?_, ?_, ?_, ?_, ?_, ?_, ?_⟩
+  · intro fuel ext tl log n; exact hgW fuel ext tl log n
+  · intro j hj; rw [hb1]; exact ⟨by simpa using hbytes j hj, beByte_le _ _⟩
+  · intro j hj; rw [hb1]; simpa using setBytes_out v hj
+  · rw [hb1]
+  · rw [hb1]
+  · rw [hb1]
+  · rw [hb1]
+  · intro fuel ext tl log n; rw [hb1]; exact hgR fuel ext tl log n
+  · rw [hb1]; exact eb2.symm
+
+
+/-- **nickname round trip, regenerated code** (the read-back is shown for any ready object `obj2`, whatever its `name`). -/
+theorem C16_gen_nick (b : Board) (obj : EBB3_Obj) (hobj : ReadyObj obj) (s : C16.Str) (hs : NickOK s) :
+    ∃ reqs,
+      (∀ (fuel : Nat) (ext : Ext) (tl : List PyIO.Rd) (log : List (List Char)) (n : Nat),
+        EBB3_write_nickname (fuel + 1) (.str s) ⟨obj, ⟨boardReads b reqs ++ tl, [], log, n⟩, ext⟩ =
+          .val (.bool true) ⟨{ obj with name := .str (strip s) },
+            ⟨tl, [], log ++ reqs.map (· ++ ['\r']), n + reqs.length⟩, ext⟩) ∧
+      (boardAfter b reqs).name = strip s ∧ (boardAfter b reqs).vars = b.vars ∧ (boardAfter b reqs).m1 = b.m1 ∧
+      (boardAfter b reqs).m2 = b.m2 ∧ (boardAfter b reqs).mode = b.mode ∧
+      ∀ (obj2 : EBB3_Obj), ReadyObj obj2 →
+        ∀ (fuel : Nat) (ext : Ext) (tl : List PyIO.Rd) (log : List (List Char)) (n : Nat),
+          EBB3_query_nickname (fuel + 1) ⟨obj2, ⟨boardReads (boardAfter b reqs) [cQT] ++ tl, [], log, n⟩, ext⟩ =
+            .val .none ⟨{ obj2 with name := .str (strip s) }, ⟨tl, [], log ++ [cQT ++ ['\r']], n + 1⟩, ext⟩ ∧
+          boardAfter (boardAfter b reqs) [cQT] = boardAfter b reqs := by
+  have hrecv := recv_ST b (nk := strip s) hs.1
+  refine ⟨[cST ++ ',' :: strip s], ?_, ?_, ?_, ?_, ?_, ?_, ?_⟩
+  · intro fuel ext tl log n
+    simp only [boardReads, hrecv, List.cons_append, List.nil_append]
+    exact gen_write_nickname fuel obj ext tl log n hobj s hs
+  · simp only [boardAfter, hrecv]
+  · simp only [boardAfter, hrecv]
+  · simp only [boardAfter, hrecv]
+  · simp only [boardAfter, hrecv]
+  · simp only [boardAfter, hrecv]
+  · intro obj2 hobj2 fuel ext tl log n
+    have hb1 : boardAfter b [cST ++ ',' :: strip s] = { b with name := strip s } := by simp only [boardAfter, hrecv]
+    rw [hb1]
+    have hq := recv_QT { b with name := strip s }
+    refine ⟨?_, by simp [boardAfter, hq]⟩
+    simp only [boardReads, hq, List.cons_append, List.nil_append]
+    have := gen_query_nickname fuel obj2 ext tl log n hobj2 (strip s) (isAscii_of_printable hs.2.1) hs.2.2
+    rw [strip_strip] at this
+    exact this
+
+/-- **motor enables, regenerated code**: for every prior well-formed board and all integers `r1 r2`. -/
+theorem C16_gen_motors (b : Board) (hwf : b.WF) (obj : EBB3_Obj) (hobj : ReadyObj obj) (r1 r2 : Int) :
+    ∃ reqs,
+      (∀ (fuel : Nat) (ext : Ext) (tl : List PyIO.Rd) (log : List (List Char)) (n : Nat),
+        EBBMotionWrap_motors_enable (fuel + 1) (.int r1) (.int r2) ⟨obj, ⟨boardReads b reqs ++ tl, [], log, n⟩, ext⟩ =
+          .val .none ⟨obj, ⟨tl, [], log ++ reqs.map (· ++ ['\r']), n + reqs.length⟩, ext⟩) ∧
+      ((boardAfter b reqs).m1 = true ↔ Spec.clamp r1 ≠ 0) ∧ ((boardAfter b reqs).m2 = true ↔ Spec.clamp r2 ≠ 0) ∧
+      (Spec.clamp r1 ≠ 0 → ((boardAfter b reqs).mode : Int) = Spec.clamp r1) ∧
+      (Spec.clamp r1 = 0 → Spec.clamp r2 ≠ 0 → ((boardAfter b reqs).mode : Int) = Spec.clamp r2) ∧
+      (Spec.clamp r1 = 0 → Spec.clamp r2 = 0 → (boardAfter b reqs).mode = b.mode) ∧
+      (boardAfter b reqs).vars = b.vars ∧ (boardAfter b reqs).name = b.name ∧
+      (∀ (fuel : Nat) (ext : Ext) (tl : List PyIO.Rd) (log : List (List Char)) (n : Nat),
+        EBBMotionWrap_motors_query_enabled (fuel + 1)
+            ⟨obj, ⟨boardReads (boardAfter b reqs) [cQE] ++ tl, [], log, n⟩, ext⟩ =
+          .val (.tuple [.int (if Spec.clamp r1 ≠ 0 then ((boardAfter b reqs).mode : Int) else 0),
+                        .int (if Spec.clamp r2 ≠ 0 then ((boardAfter b reqs).mode : Int) else 0)])
+            ⟨obj, ⟨tl, [], log ++ [cQE ++ ['\r']], n + 1⟩, ext⟩) ∧
+      boardAfter (boardAfter b reqs) [cQE] = boardAfter b reqs := by
+  have hr : Ready (readyWorld b none) := ⟨rfl, rfl⟩
+  obtain ⟨w1, w2, hw, hm1, hm2, hmode1, hmode2, hmode0, hvars, hname, hpy, _, _, _⟩ :=
+    C16_motors (readyWorld b none) hr hwf.mode r1 r2
+  obtain ⟨reqs, v, py', hm, _, hg⟩ :=
+    gen_op_bridge (readyWorld b none) hr hwf (.motorsEnable r1 r2) trivial trivial obj hobj
+  have e1 := hm
+  simp only [runOp] at e1
+  rw [hw] at e1
+  injection e1 with e1
+  injection e1 with ev ew
+  subst ev
+  have hb1 : boardAfter b reqs = w1.board := by rw [ew]
+  -- mode of the new board is 1..5
+  have c1 := clamp_range r1
+  have c2 := clamp_range r2
+  have hmr : 1 ≤ w1.board.mode ∧ w1.board.mode ≤ 5 := by
+    have := hwf.mode
+    by_cases z1 : Spec.clamp r1 = 0
+    · by_cases z2 : Spec.clamp r2 = 0
+      · have h := hmode0 z1 z2
+        simp only [] at h
+        omega
+      · have := hmode2 z1 z2; omega
+    · have := hmode1 z1; omega
+  have hq := recv_QE w1.board
+  refine ⟨reqs, ?_, ?_, ?_, ?_, ?_, ?_, ?_, ?_, ?_, ?_⟩
+  · intro fuel ext tl log n; exact hg fuel ext tl log n
+  · rw [hb1]; exact hm1
+  · rw [hb1]; exact hm2
+  · rw [hb1]; exact hmode1
+  · rw [hb1]; exact hmode2
+  · rw [hb1]; exact hmode0
+  · rw [hb1]; exact hvars
+  · rw [hb1]; exact hname
+  · intro fuel ext tl log n
+    rw [hb1]
+    simp only [boardReads, hq, List.cons_append, List.nil_append]
+    have := gen_motors_query_enabled fuel obj ext tl log n hobj _ _ _ _ (resMap_qe hmr w1.board.m1) (resMap_qe hmr w1.board.m2)
+    rw [this]
+    have d1 : w1.board.m1 = decide (Spec.clamp r1 ≠ 0) := by
+      cases h : w1.board.m1 <;> simp [h] at hm1 ⊢ <;> exact hm1
+    have d2 : w1.board.m2 = decide (Spec.clamp r2 ≠ 0) := by
+      cases h : w1.board.m2 <;> simp [h] at hm2 ⊢ <;> exact hm2
+    simp [d1, d2]
+  · rw [hb1]; simp [boardAfter, hq]
+
+
+/-- **arbitrary sequences, regenerated code.** A history of in-domain operations on the regenerated methods returns the
+values of `Spec.steps`, drives the board to the state of `Spec.steps`, keeps `self.name` as `Spec.steps` says, never raises
+and never runs out of fuel (`genRunOps … = some …`). -/
+theorem C16_gen_sequences (b : Board) (nm : Option C16.Str) (hwf : b.WF) (herr : isInfix sErr b.name = false)
+    (hasc : PyIO.isAscii b.name = true) (ops : List Op) (hops : ∀ op ∈ ops, OpOK op)
+    (obj : EBB3_Obj) (hobj : ReadyObj obj) (hname : obj.name = encName nm) :
+    ∃ reqs obj',
+      (∀ (fuel : Nat) (ext : Ext) (tl : List PyIO.Rd) (log : List (List Char)) (n : Nat),
+        genRunOps (fuel + 1) ops ⟨obj, ⟨boardReads b reqs ++ tl, [], log, n⟩, ext⟩ =
+          some ((Spec.steps ⟨b, nm⟩ ops).1.map encVal,
+            ⟨obj', ⟨tl, [], log ++ reqs.map (· ++ ['\r']), n + reqs.length⟩, ext⟩)) ∧
+      boardAfter b reqs = (Spec.steps ⟨b, nm⟩ ops).2.board ∧
+      obj'.name = encName (Spec.steps ⟨b, nm⟩ ops).2.pyName ∧ ReadyObj obj' ∧
+      (boardAfter b reqs).WF ∧ isInfix sErr (boardAfter b reqs).name = false ∧
+      PyIO.isAscii (boardAfter b reqs).name = true := by
+  have hinv : InvG (readyWorld b nm) := ⟨⟨⟨rfl, rfl⟩, hwf, herr⟩, hasc⟩
+  obtain ⟨reqs, vals, py', obj', hm, ⟨hr', hn'⟩, hinv', hg⟩ := gen_ops_bridge ops (readyWorld b nm) hinv hops obj hobj hname
+  obtain ⟨w', hs, es, _⟩ := C16_sequences (readyWorld b nm) hinv.1 ops hops
+  rw [hm] at hs
+  injection hs with hs
+  injection hs with ev ew
+  subst ev
+  have hb : boardAfter b reqs = (Spec.steps ⟨b, nm⟩ ops).2.board := by
+    rw [← ew] at es; exact congrArg Spec.Abs.board es
+  have hp : py'.name = (Spec.steps ⟨b, nm⟩ ops).2.pyName := by
+    rw [← ew] at es; exact congrArg Spec.Abs.pyName es
+  exact ⟨reqs, obj', hg, hb, by rw [hn', hp], hr', hinv'.1.2.1, hinv'.1.2.2, hinv'.2⟩
+
+/-- **int32 round trip under interleaving, regenerated code.** -/
+theorem C16_gen_int32_frame (b : Board) (nm : Option C16.Str) (hwf : b.WF) (herr : isInfix sErr b.name = false)
+    (hasc : PyIO.isAscii b.name = true) (v i : Int) (hv : IsInt32 v) (hi : 0 ≤ i ∧ i ≤ 28)
+    (ops : List Op) (hops : ∀ op ∈ ops, OpOK op ∧ Disjoint i.toNat op)
+    (obj : EBB3_Obj) (hobj : ReadyObj obj) (hname : obj.name = encName nm) :
+    ∃ reqs vals obj',
+      (∀ (fuel : Nat) (ext : Ext) (tl : List PyIO.Rd) (log : List (List Char)) (n : Nat),
+        genRunOps (fuel + 1) (.writeInt32 v i :: ops ++ [.readInt32 i]) ⟨obj, ⟨boardReads b reqs ++ tl, [], log, n⟩, ext⟩ =
+          some (vals, ⟨obj', ⟨tl, [], log ++ reqs.map (· ++ ['\r']), n + reqs.length⟩, ext⟩)) ∧
+      vals.head? = some (.bool true) ∧ vals.getLast? = some (.int v) ∧
+      (∀ k, k < 4 → (boardAfter b reqs).vars[i.toNat + k]? = some (Spec.beByte v k)) := by
+  have hinv : Inv (readyWorld b nm) := ⟨⟨rfl, rfl⟩, hwf, herr⟩
+  have hall : ∀ op ∈ (Op.writeInt32 v i :: ops ++ [Op.readInt32 i]), OpOK op := by
+    intro op hop
+    simp only [List.cons_append, List.mem_cons, List.mem_append, List.not_mem_nil, or_false] at hop
+    rcases hop with rfl | hop | rfl
+    · exact ⟨hv, hi⟩
+    · exact (hops op hop).1
+    · exact hi
+  obtain ⟨reqs, obj', hg, hb, _, _, _⟩ := C16_gen_sequences b nm hwf herr hasc _ hall obj hobj hname
+  obtain ⟨mvals, w', hrun, hhead, hlast, hslots, _⟩ := C16_int32_frame (readyWorld b nm) hinv v i hv hi ops hops
+  obtain ⟨w'', hs, es, _⟩ := C16_sequences (readyWorld b nm) hinv _ hall
+  rw [hrun] at hs
+  injection hs with hs
+  injection hs with ev ew
+  subst ew
+  refine ⟨reqs, mvals.map encVal, obj', ?_, ?_, ?_, ?_⟩
+  · intro fuel ext tl log n; rw [ev]; exact hg fuel ext tl log n
+  · cases mvals with
+    | nil => simp at hhead
+    | cons a t => simp at hhead; subst hhead; rfl
+  · rw [List.getLast?_map, hlast]; rfl
+  · intro k hk
+    rw [hb, ← congrArg Spec.Abs.board es]
+    exact hslots k hk
+
+/-- the single-call bridge as an obligation of the property (see `C16.gen_op_bridge`) -/
+theorem C16_gen_bridge (w : C16.World) (hr : Ready w) (hwf : w.board.WF) (op : Op) (hop : OpOK op) (hnm : NameReq w op)
+    (obj : EBB3_Obj) (hready : ReadyObj obj) :
+    ∃ reqs v py',
+      runOp w op = .ok (v, ⟨py', boardAfter w.board reqs, reqs.reverse ++ w.sent⟩) ∧
+      (obj.name = encName w.py.name → (objAfter obj w.board op).name = encName py'.name) ∧
+      ∀ (fuel : Nat) (ext : Ext) (tl : List PyIO.Rd) (log : List (List Char)) (n : Nat),
+        genOp (fuel + 1) op ⟨obj, ⟨boardReads w.board reqs ++ tl, [], log, n⟩, ext⟩ =
+          .val (encVal v) ⟨objAfter obj w.board op, ⟨tl, [], log ++ reqs.map (· ++ ['\r']), n + reqs.length⟩, ext⟩ :=
+  gen_op_bridge w hr hwf op hop hnm obj hready
+
+
+example := C16_gen_int32 exampleWorld.board exampleWorld_inv.2.1 exampleObj exampleObj_ready (-2) 5
+  (by unfold IsInt32; omega) (by omega)
+example := C16_gen_motors exampleWorld.board exampleWorld_inv.2.1 exampleObj exampleObj_ready 0 9
+example := C16_gen_nick exampleWorld.board exampleObj exampleObj_ready
+  [' ', ' ', 'A', 'B', 'C', 'D', 'E', 'F', 'G', 'H', 'I', 'J', 'K', 'L', 'M', 'N', 'O', 'P'] ⟨by decide, by decide, by decide⟩
+example := C16_gen_sequences exampleWorld.board none exampleWorld_inv.2.1 (by decide) (by decide)
+  [.motorsEnable 7 (-1), .motorsQuery, .queryNick] (by
+    intro op hop
+    simp only [List.mem_cons, List.not_mem_nil, or_false] at hop
+    rcases hop with rfl | rfl | rfl <;> trivial) exampleObj exampleObj_ready rfl
+
+end Regenerated
 
 end Plotink
